@@ -102,7 +102,11 @@ func VSetStep(s Set[int], pre []int, ordered bool, name string, inv func()) []in
 
 // VSetHistory: D operations in a row from a freshly constructed set.
 func VSetHistory(s Set[int], ordered bool, name string, inv func()) {
-	var members []int
+	VSetHistoryFrom(s, nil, ordered, name, inv)
+}
+
+// VSetHistoryFrom: the same from a set constructed with initial values (members = their first occurrences).
+func VSetHistoryFrom(s Set[int], members []int, ordered bool, name string, inv func()) {
 	D := v.CfgOr("D", 3)
 	for i := 0; i < D; i++ {
 		members = VSetStep(s, members, ordered, name, inv)
